@@ -23,7 +23,7 @@ RULE = ("scenario = BLOB length (enumerated from the run index: 0..96, windows a
         "bytes and the 2048-character threshold, then 4Ki/10K/64Ki; thorough: every length 0..3200, 64Ki, 1Mi) x content {random over all "
         "256 byte values, zeros, 0xFF} x format x receivers {library client (Only on the BLOB connection), library client additionally "
         "Also on control, raw peers with policy unset/Never/Also/Only} x direction {download, upload by client API, raw upload} x partial "
-        "BLOB faults x fragmentation {fixed:1024, fixed:1, random, ...}; distinct = (length, direction set, policies, frag, fault); "
+        "BLOB faults x a driver registered after the clients' enableBLOB for it x fragmentation {fixed:1024, fixed:1, random, ...}; distinct = (length, direction set, policies, frag, fault); "
         "non-trivial = at least one payload of length >= 1 compared")
 COMPONENTS = c01.COMPONENTS
 ASSUMPTIONS = [
@@ -70,6 +70,10 @@ def generate(seed, tier, index):
     L = lens[index % len(lens)]
     big = L > 20000
     frag = rng.choice(["fixed:1024", "fixed:1024", "random", "whole", "coalesce", "fixed:7"] + ([] if L > 3000 else ["fixed:1"]))
+    if big and (frag == "fixed:7" or (frag == "random" and L >= 1 << 20)):
+        # the framing buffer rescans everything it holds on every read: 64 KiB in 7-byte reads cost 26 s, a megabyte would cost
+        # hours (measured; a chunk of the thorough soak hit the 5-minute per-chunk limit this way). Small reads are swept at small sizes.
+        frag = "fixed:1024"
     raw = rng.sample(["unset", "Never", "Also", "Only"], rng.randint(1, 4))
     if rng.random() < 0.3:
         raw = ["Also", "Only"] + [x for x in raw if x not in ("Also", "Only")]
@@ -100,6 +104,9 @@ def generate(seed, tier, index):
         ups.append({"op": "partial_up", "len": max(min(L, 1200), 50), "cut": rng.random()})
     rng.shuffle(ups)
     steps += ups
+    if rng.random() < 0.3 and not big:
+        # a driver that comes up (is hot-plugged) after the clients connected and sent their enableBLOB for it
+        steps.append({"op": "late_driver", "len": rng.choice([1, 3, 100, 956, L if L else 2]), "pattern": "random", "format": rng.choice([".fits", ""])})
     if rng.random() < 0.5 and not big:
         steps.append(dict(steps[0], len=rng.choice([0, 1, L]), pattern="random"))
     return {"steps": steps, "raw": raw, "also_on_control": rng.random() < 0.2 and L < 20000,
@@ -314,6 +321,48 @@ def execute(scen):
                     break
                 compared += 1 if L else 0
                 follow(ctx, facts)
+            elif op == "late_driver":
+                from ..gen import drivers as G
+                data = payload(scen["seed"] + 11 * L + 2, L, st["pattern"])
+                fmt = st["format"]
+                facts = {"direction": "download", "len": L, "late_driver": True}
+                ctx = f"download of {L} bytes from a driver registered after the clients' enableBLOB for it"
+                for pol, p in raws.items():
+                    if pol != "unset" and not getattr(p, "cut", False):
+                        sim.do(p.send, f'<enableBLOB device="CAM2">{pol}</enableBLOB>\n')
+                sim.settle()
+                spec2 = _device()
+                spec2["name"], spec2["name_via"] = "CAM2", "ctor"
+                stack.specs["CAM2"] = spec2
+                stack.drivers["CAM2"] = G.instantiate(spec2, stack.router)
+                for pol, p in raws.items():
+                    p.mark = len(p.received)
+                res = apply_step(stack, {"op": "d_assign", "dev": "CAM2", "vec": "IMG", "el": "B0", "value": {"blob_hex": data.hex(), "format": fmt}})
+                if res.error or res.skipped:
+                    viol.append({"clause": "C08.down", "detail": f"publishing raised {res.error or res.skipped}; {ctx}", "facts": facts})
+                    break
+                sim.settle()
+                probes["driver_registered_after_enableBLOB"] = probes.get("driver_registered_after_enableBLOB", 0) + 1
+                for pol, p in raws.items():
+                    if getattr(p, "cut", False):
+                        continue
+                    msgs, tail = _blob_msgs(p.received[p.mark:].decode("latin1"))
+                    if pol in ("unset", "Never"):
+                        if msgs:
+                            viol.append({"clause": "C08.nopayload", "detail": f"raw peer with policy {pol} received a setBLOBVector; {ctx}", "facts": dict(facts, policy=pol)})
+                            break
+                    else:
+                        mine = [m for m in msgs if "B0" in m]
+                        if len(mine) != 1:
+                            viol.append({"clause": "C08.down", "detail": f"raw peer ({pol}) received {len(mine)} setBLOBVector messages for one update; {ctx}", "facts": dict(facts, policy=pol)})
+                            break
+                        b, f, sz = mine[0]["B0"]
+                        if b != data or (f or "") != fmt or sz != str(L):
+                            viol.append({"clause": "C08.down", "detail": f"raw peer ({pol}): payload differs (len {len(b)} vs {L}, format {f!r}, size attr {sz!r}); {ctx}", "facts": dict(facts, policy=pol)})
+                            break
+                        compared += 1
+                if not viol:
+                    follow(ctx, facts)
             elif op == "partial_down":
                 # the library client's BLOB connection is cut inside a payload; control continues
                 data = payload(scen["seed"] + 3, L, "random")
